@@ -122,3 +122,15 @@ Theorem C14_redis_destructive_displaces_at_most_one : forall key meta size bsize
   end.
 Proof. exact RedisCuckooConserve.rinsert_conserves. Qed.
 Print Assumptions C14_redis_destructive_displaces_at_most_one.
+
+(* non-vacuity of the Redis theorems: a new filter (4 buckets of 2 slots, concrete fresh keys) and an
+   element with a non-empty fingerprint meet their premises *)
+From GX.Proofs Require Import NonVacuity.
+Example C14_redis_premises_hold : exists s c fp i1 i2,
+  buckets_ok k_a 4 2 s /\ mlen k_m s = Some c /\
+  rck_positions h64c (hdl k_a k_m 4 2 2 5) [1] = Ok (fp, i1, i2) /\ fp <> [] /\ i1 < 4 /\ i2 < 4.
+Proof.
+  destruct RI_inhabited as (s & (Hok & Hm) & _).
+  exists s. eexists. eexists. eexists. eexists. split; [exact Hok|]. split; [exact Hm|].
+  split; [vm_compute; reflexivity|]. split; [discriminate|]. split; vm_compute; reflexivity.
+Qed.
